@@ -151,8 +151,16 @@ def handler_classes(handler: ast.ExceptHandler) -> list[str]:
 def match_handler(token: str, classes: list[str], extra: dict[str, str | None] | None = None) -> str:
     """'yes' (certainly caught) / 'maybe' / 'no'."""
     result = "no"
+    excluded: list[str] = []
+    if "!" in token:
+        # `BaseException!KeyboardInterrupt`: re-raised from a catch-all handler that sits BEHIND a KeyboardInterrupt
+        # handler of the same try - whatever it is, it is not a KeyboardInterrupt
+        token, ex_ = token.split("!", 1)
+        excluded = ex_.split(",")
     for h in classes:
         hs = short(h)
+        if any(is_subclass(hs, e_, extra) is True for e_ in excluded):
+            continue
         if token == "BaseException":
             # re-raise of something caught by a bare / BaseException handler: may be anything
             if hs == "BaseException":
@@ -491,6 +499,9 @@ class CFG:
             saved = getattr(self, "_reraise", None)
             saved_names = dict(getattr(self, "_reraise_names", {}))
             self._reraise = [short(c) if short(c) != "Exception" else GENERIC for c in classes]
+            prior = [short(c_) for h_ in s.handlers[: s.handlers.index(h)] for c_ in handler_classes(h_) if short(c_) not in ("BaseException", "Exception", "?")]
+            if prior:
+                self._reraise = [f"{t_}!{','.join(prior)}" if t_ == "BaseException" else t_ for t_ in self._reraise]
             if h.name:
                 names = dict(saved_names)
                 names[h.name] = self._reraise
